@@ -1,6 +1,8 @@
 #!/bin/bash
 # Thorough tier of every registered check (or $PROPS), one after the other.
 cd "$(dirname "$0")/.."
+# under `vp run --with-repo` use the repository snapshot, not /repo itself
+[ -n "$VP_RUN_REPO" ] && export FSIM_REPO="$VP_RUN_REPO"
 props="${PROPS:-$(/venv/bin/python -c "import sys; sys.path.insert(0,'.'); from fsim import registry; print(' '.join(sorted(registry.CHECKS)))")}"
 bad=0
 for p in $props; do
